@@ -39,7 +39,9 @@ def run_raire(case, earlier_search=False):
     from shangrla.raire.raire_utils import Contest as RContest
 
     cvrs = si.raire_cvrs(case)
-    contest = RContest("c", list(case["cands"]), case["winner"], total_ballots(case), order=case["order_hint"] or [])
+    # the reported winner is the function's `winner` argument; the Contest object may carry another (e.g. stale) value
+    attr_winner = case["winner"] if len(case["ballots"]) % 3 else case["cands"][0]
+    contest = RContest("c", list(case["cands"]), attr_winner, total_ballots(case), order=case["order_hint"] or [])
     f = getattr(sample_estimator, case["asn"])
     if earlier_search:
         # the same Contest object and CVR mapping were searched before with the other difficulty function
